@@ -172,6 +172,50 @@ Fixpoint opt_panics (o : opt6) : bool :=
 Definition msg_panics (m : msg6) : bool :=
   match m with Msg _ _ os | Relay _ _ _ _ os => existsb opt_panics os end.
 
+(** the ParseOption switch: which concrete type a code is parsed as *)
+Inductive okind :=
+| KClientID | KServerID | KIANA | KIATA | KIAAddr | KORO | KElapsed | KRelayMsg | KStatus | KUserClass | KVendorClass | KVendorOpts | KInterfaceID | KDNS | KDomainList | KIAPD | KIAPrefix | KInfoRefresh | KRemoteID | KFQDN | KNTP | KBootURL | KBootParam | KArch | KNII | KClientLL | KDHCPv4 | K4o6 | K4RD | K4RDMap | K4RDNonMap | KRelayPort | KGeneric.
+
+Definition dispatch_table : list (N * okind) :=
+  [(1, KClientID); (2, KServerID); (3, KIANA); (4, KIATA); (5, KIAAddr); (6, KORO); (8, KElapsed); (9, KRelayMsg); (13, KStatus); (15, KUserClass); (16, KVendorClass); (17, KVendorOpts); (18, KInterfaceID); (23, KDNS); (24, KDomainList); (25, KIAPD); (26, KIAPrefix); (32, KInfoRefresh); (37, KRemoteID); (39, KFQDN); (56, KNTP); (59, KBootURL); (60, KBootParam); (61, KArch); (62, KNII); (79, KClientLL); (87, KDHCPv4); (88, K4o6); (97, K4RD); (98, K4RDMap); (99, K4RDNonMap); (135, KRelayPort)]%N.
+
+Definition classify (code : N) : okind :=
+  match code with
+  | 1 => KClientID
+  | 2 => KServerID
+  | 3 => KIANA
+  | 4 => KIATA
+  | 5 => KIAAddr
+  | 6 => KORO
+  | 8 => KElapsed
+  | 9 => KRelayMsg
+  | 13 => KStatus
+  | 15 => KUserClass
+  | 16 => KVendorClass
+  | 17 => KVendorOpts
+  | 18 => KInterfaceID
+  | 23 => KDNS
+  | 24 => KDomainList
+  | 25 => KIAPD
+  | 26 => KIAPrefix
+  | 32 => KInfoRefresh
+  | 37 => KRemoteID
+  | 39 => KFQDN
+  | 56 => KNTP
+  | 59 => KBootURL
+  | 60 => KBootParam
+  | 61 => KArch
+  | 62 => KNII
+  | 79 => KClientLL
+  | 87 => KDHCPv4
+  | 88 => K4o6
+  | 97 => K4RD
+  | 98 => K4RDMap
+  | 99 => K4RDNonMap
+  | 135 => KRelayPort
+  | _ => KGeneric
+  end%N.
+
 (** * Decoding *)
 
 Definition rd_u8 (b : bytes) : res (N * bytes) :=
@@ -277,58 +321,58 @@ Fixpoint dec_opt (fuel : nat) (code : N) (data : bytes) : res opt6 :=
   | O => Fuel
   | S f =>
     let opts := dec_tlvs (dec_opt f) in
-    match code with
-    | 1 => let* d := dec_duid data in Ok (OClientID d)
-    | 2 => let* d := dec_duid data in Ok (OServerID d)
-    | 3 => let* (iaid, r) := rd_n 4 data in let* (t1, r) := rd_u32 r in let* (t2, r) := rd_u32 r in
+    match classify code with
+    | KClientID => let* d := dec_duid data in Ok (OClientID d)
+    | KServerID => let* d := dec_duid data in Ok (OServerID d)
+    | KIANA => let* (iaid, r) := rd_n 4 data in let* (t1, r) := rd_u32 r in let* (t2, r) := rd_u32 r in
            let* os := opts r in Ok (OIANA iaid t1 t2 os)
-    | 4 => let* (iaid, r) := rd_n 4 data in let* os := opts r in Ok (OIATA iaid os)
-    | 5 => let* (a, r) := rd_n 16 data in let* (p, r) := rd_u32 r in let* (v, r) := rd_u32 r in
+    | KIATA => let* (iaid, r) := rd_n 4 data in let* os := opts r in Ok (OIATA iaid os)
+    | KIAAddr => let* (a, r) := rd_n 16 data in let* (p, r) := rd_u32 r in let* (v, r) := rd_u32 r in
            let* os := opts r in Ok (OIAAddr a p v os)
-    | 6 => let* cs := many_u16 data in Ok (OORO (dedup_add [] cs))
-    | 8 => let* (t, r) := rd_u16 data in let* _ := fin_empty r in Ok (OElapsed t)
-    | 9 => let* m := dec_msg_with opts data in
+    | KORO => let* cs := many_u16 data in Ok (OORO (dedup_add [] cs))
+    | KElapsed => let* (t, r) := rd_u16 data in let* _ := fin_empty r in Ok (OElapsed t)
+    | KRelayMsg => let* m := dec_msg_with opts data in
            Ok (match m with Msg t xid os => ORelayMsgM t xid os | Relay t h l p os => ORelayMsgR t h l p os end)
-    | 13 => let* (c, r) := rd_u16 data in Ok (OStatus c r)
-    | 15 => match data with [] => Err | _ => let* cls := many_len16 (S (length data)) data in Ok (OUserClass cls) end
-    | 16 => let* (en, r) := rd_u32 data in let* ds := many_len16 (S (length r)) r in
+    | KStatus => let* (c, r) := rd_u16 data in Ok (OStatus c r)
+    | KUserClass => match data with [] => Err | _ => let* cls := many_len16 (S (length data)) data in Ok (OUserClass cls) end
+    | KVendorClass => let* (en, r) := rd_u32 data in let* ds := many_len16 (S (length r)) r in
             match ds with [] => Err | _ => Ok (OVendorClass en ds) end
-    | 17 => let* (en, r) := rd_u32 data in
+    | KVendorOpts => let* (en, r) := rd_u32 data in
             let* subs := dec_tlvs (fun c d => Ok (c, d)) r in Ok (OVendorOpts en subs)
-    | 18 => Ok (OInterfaceID data)
-    | 23 => let* as_ := many_ip16 (S (length data)) data in Ok (ODNS as_)
-    | 24 => let* l := dec_labels data in Ok (ODomainList l)
-    | 25 => let* (iaid, r) := rd_n 4 data in let* (t1, r) := rd_u32 r in let* (t2, r) := rd_u32 r in
+    | KInterfaceID => Ok (OInterfaceID data)
+    | KDNS => let* as_ := many_ip16 (S (length data)) data in Ok (ODNS as_)
+    | KDomainList => let* l := dec_labels data in Ok (ODomainList l)
+    | KIAPD => let* (iaid, r) := rd_n 4 data in let* (t1, r) := rd_u32 r in let* (t2, r) := rd_u32 r in
             let* os := opts r in Ok (OIAPD iaid t1 t2 os)
-    | 26 => let* (p, r) := rd_u32 data in let* (v, r) := rd_u32 r in let* (plen, r) := rd_u8 r in
+    | KIAPrefix => let* (p, r) := rd_u32 data in let* (v, r) := rd_u32 r in let* (plen, r) := rd_u8 r in
             let* (a, r) := rd_n 16 r in
             if (128 <? plen)%N then Err
             else let* os := opts r in
                  Ok (OIAPrefix p v (if (plen =? 0)%N then None else Some (plen, a)) os)
-    | 32 => let* (t, r) := rd_u32 data in let* _ := fin_empty r in Ok (OInfoRefresh t)
-    | 37 => let* (en, r) := rd_u32 data in Ok (ORemoteID en r)
-    | 39 => let* (f, r) := rd_u8 data in let* l := dec_labels r in Ok (OFQDN f l)
-    | 56 => let* subs := dec_tlvs dec_ntpsub data in Ok (ONTP subs)
-    | 59 => Ok (OBootURL data)
-    | 60 => let* ps := many_len16 (S (length data)) data in Ok (OBootParam ps)
-    | 61 => match data with [] => Err | _ => let* archs := many_u16 data in Ok (OArch archs) end
-    | 62 => let* (t, r) := rd_u8 data in let* (ma, r) := rd_u8 r in let* (mi, r) := rd_u8 r in
+    | KInfoRefresh => let* (t, r) := rd_u32 data in let* _ := fin_empty r in Ok (OInfoRefresh t)
+    | KRemoteID => let* (en, r) := rd_u32 data in Ok (ORemoteID en r)
+    | KFQDN => let* (f, r) := rd_u8 data in let* l := dec_labels r in Ok (OFQDN f l)
+    | KNTP => let* subs := dec_tlvs dec_ntpsub data in Ok (ONTP subs)
+    | KBootURL => Ok (OBootURL data)
+    | KBootParam => let* ps := many_len16 (S (length data)) data in Ok (OBootParam ps)
+    | KArch => match data with [] => Err | _ => let* archs := many_u16 data in Ok (OArch archs) end
+    | KNII => let* (t, r) := rd_u8 data in let* (ma, r) := rd_u8 r in let* (mi, r) := rd_u8 r in
             let* _ := fin_empty r in Ok (ONII t ma mi)
-    | 79 => let* (hw, r) := rd_u16 data in Ok (OClientLL hw r)
-    | 87 => let* p := dec4 data in Ok (ODHCPv4 p)
-    | 88 => let* as_ := many_ip16 (S (length data)) data in Ok (O4o6 as_)
-    | 97 => let* os := opts data in Ok (O4RD os)
-    | 98 => let* (p4l, r) := rd_u8 data in let* (p6l, r) := rd_u8 r in
+    | KClientLL => let* (hw, r) := rd_u16 data in Ok (OClientLL hw r)
+    | KDHCPv4 => let* p := dec4 data in Ok (ODHCPv4 p)
+    | K4o6 => let* as_ := many_ip16 (S (length data)) data in Ok (O4o6 as_)
+    | K4RD => let* os := opts data in Ok (O4RD os)
+    | K4RDMap => let* (p4l, r) := rd_u8 data in let* (p6l, r) := rd_u8 r in
             let* (ea, r) := rd_u8 r in let* (fl, r) := rd_u8 r in
             let* (p4, r) := rd_n 4 r in let* (p6, r) := rd_n 16 r in let* _ := fin_empty r in
             if (32 <? p4l)%N || (128 <? p6l)%N then Err
             else Ok (O4RDMap p4l p6l ea (128 <=? fl)%N p4 p6)
-    | 99 => let* (fl, r) := rd_u8 data in let* (tc, r) := rd_u8 r in let* (pmtu, r) := rd_u16 r in
+    | K4RDNonMap => let* (fl, r) := rd_u8 data in let* (tc, r) := rd_u8 r in let* (pmtu, r) := rd_u16 r in
             let* _ := fin_empty r in
             Ok (O4RDNonMap (128 <=? fl)%N (if N.odd fl then Some tc else None) pmtu)
-    | 135 => let* (p, r) := rd_u16 data in let* _ := fin_empty r in Ok (ORelayPort p)
-    | _ => Ok (OGeneric code data)
-    end%N
+    | KRelayPort => let* (p, r) := rd_u16 data in let* _ := fin_empty r in Ok (ORelayPort p)
+    | KGeneric => Ok (OGeneric code data)
+    end
   end.
 
 Definition dec_opts (fuel : nat) (b : bytes) : res (list opt6) := dec_tlvs (dec_opt fuel) b.
